@@ -222,6 +222,66 @@ fn learn_then_retype(run: &Run, english: bool, word: &str, wrap: (&str, &str), f
     Ok(())
 }
 
+/// "Turning smart quotes on": ONE live context per shard is switched on and off by update-engine (while idle) for
+/// every text; the renderings it returns with the option on and with it off must stand in the same relation as
+/// those of two separately created contexts.
+pub struct Toggled {
+    sb: Sandbox,
+    ctx: Ctx,
+}
+
+fn mk_toggled(shard: usize) -> Toggled {
+    let i = shard | 8; // suggestions on in (almost) every shard, layout / English / ANSI varied
+    let mut o = Opts::parse("");
+    o.layout = if i & 1 != 0 { Layout::Probhat } else { Layout::Phonetic };
+    o.english = i & 2 != 0;
+    o.ansi = i & 4 != 0;
+    o.psug = shard != 6;
+    o.fsug = shard != 7;
+    o.kar = i & 1 != 0 && i & 2 != 0;
+    let sb = Sandbox::new();
+    std::fs::write(sb.selection_file(), STORE).expect("store");
+    Toggled { ctx: Ctx::new(o, &sb).expect("context"), sb }
+}
+
+fn toggled_case(text: &str, lo: &mut Toggled, st: &mut Stats) -> Result<(), Failure> {
+    let base = lo.ctx.opts;
+    let case = || json!({"toggled": true, "options": base.letters(), "text": text});
+    let pf = |p: crate::driver::PanicInfo| Failure::new(panic_kind(&p), p.to_string(), case());
+    let fixed = !base.is_phonetic();
+    let ks = ascii_keys(text);
+    let mut renderings: Vec<Vec<Rendered>> = vec![];
+    // off, on, off again: both directions of the switch are exercised
+    for smart in [false, true, false] {
+        let mut o = base;
+        o.smart = smart;
+        lo.ctx.finish().map_err(pf)?;
+        lo.ctx.update(o, &lo.sb).map_err(pf)?;
+        let mut rs = vec![];
+        for (c, m) in &ks {
+            rs.push(lo.ctx.key(*c, *m, 0).map_err(pf)?);
+        }
+        lo.ctx.finish().map_err(pf)?;
+        renderings.push(rs);
+    }
+    let mut raw = String::new();
+    for (i, (c, _)) in ks.iter().enumerate() {
+        if let Some(ch) = keys().by_code(*c).and_then(|k| k.ascii) {
+            raw.push(ch);
+        }
+        st.count("events-compared", 2);
+        for off in [0usize, 2] {
+            compare(&renderings[1][i], &renderings[off][i], fixed, &raw, &case).map_err(|mut f| {
+                f.kind = format!("switched-by-update-engine:{}", f.kind);
+                f.message = format!("one context, smart quotes switched by update-engine ({}): {}", if off == 0 { "off -> on" } else { "on -> off" }, f.message);
+                f
+            })?;
+        }
+    }
+    st.label("toggled-context-texts");
+    Ok(())
+}
+
 pub fn run(run: &Run) {
     let lw: Vec<(&str, &str)> = vec![("\"", "\""), ("'", "'"), ("\"(", ")\""), ("", "\"."), ("'", ""), ("(\"", "\")"), ("", "")];
     let words: Vec<&str> = PHON_WORDS.iter().copied().filter(|w| w.chars().all(|c| c.is_ascii_alphabetic())).collect();
@@ -275,6 +335,18 @@ pub fn run(run: &Run) {
         },
     );
     run.require_label("quote-adjacent-to-word-with-list", 50);
+    let any2: Vec<char> = crate::driver::typeable().into_iter().chain("''''\"\"\"\"``::..".chars()).collect();
+    let qw: Vec<String> = lw.iter().flat_map(|(a, b)| PHON_WORDS.iter().chain(FIXED_WORDS.iter()).map(move |w| format!("{a}{w}{b}"))).collect();
+    run.sharded(
+        "one-context-switched-by-update-engine",
+        16,
+        run.tier.pick(400, 8000),
+        0,
+        move || prop_oneof![2 => proptest::sample::select(qw.clone()), 1 => proptest::collection::vec(proptest::sample::select(any2.clone()), 1..10).prop_map(|v| v.into_iter().collect::<String>())],
+        mk_toggled,
+        |text: &String, st, lo| toggled_case(text, lo, st),
+    );
+    run.require_label("toggled-context-texts", 1000);
 }
 
 pub fn replay(run: &Run, case: &Value) -> Result<(), Failure> {
@@ -282,6 +354,13 @@ pub fn replay(run: &Run, case: &Value) -> Result<(), Failure> {
         let s = |v: &Value| v.as_str().unwrap_or_default().to_string();
         let (w0, w1, o0, o1) = (s(&case["wrap"][0]), s(&case["wrap"][1]), s(&case["other_wrap"][0]), s(&case["other_wrap"][1]));
         return learn_then_retype(run, case["english"].as_bool().unwrap_or(false), case["word"].as_str().unwrap_or_default(), (&w0, &w1), case["frac"].as_u64().unwrap_or(0) as u16, (&o0, &o1), &mut Stats::new());
+    }
+    if case["toggled"].as_bool() == Some(true) {
+        let o = Opts::parse(case["options"].as_str().unwrap_or_default());
+        let sb = Sandbox::new();
+        std::fs::write(sb.selection_file(), STORE).expect("store");
+        let mut lo = Toggled { ctx: Ctx::new(o, &sb).map_err(|p| Failure::new(panic_kind(&p), p.to_string(), case.clone()))?, sb };
+        return toggled_case(case["text"].as_str().unwrap_or_default(), &mut lo, &mut Stats::new());
     }
     let lo = mk_local();
     let pi = case["pair"].as_u64().unwrap_or(8) as usize % 16;
